@@ -475,6 +475,7 @@ def run(ctx):
         cases = [gen_case(ctx.rng) for _ in range(n)]
         ops = corpus + [fmt(c) for c in cases]
         tags = [["corpus"]] * len(corpus) + [c.tags for c in cases]
+    ctx.log("generated", len(ops), "ops")
     impl = ctx.go_run(binary, "TestVerifC29", ops)
     if ctx.last_go_crash:
         ctx.notes.append("go harness: " + str(ctx.last_go_crash)[-300:])
@@ -482,7 +483,9 @@ def run(ctx):
     if model is None:
         proofs_ok = False
         model = []
+    ctx.log("model and implementation ran")
     nviol = ncorr = 0
+    seen_sigs = set()
     for i, op in enumerate(ops):
         out = impl[i] if i < len(impl) else "<missing>"
         cfg, data, good, kv = parse_op(op)
@@ -502,23 +505,34 @@ def run(ctx):
         if res:
             msg, sig = res
             nviol += 1
-            if nviol <= 40:
-                small = shrink(ctx, binary, op, sig) if not ctx.replay else op
-                sout = ctx.go_run(binary, "TestVerifC29", [small])
-                r2 = oracle(small, sout[0] if sout else "<missing>")
-                if r2 is None or r2[1] != sig:
-                    small, sout, r2 = op, [out], res
-                ctx.violation("property", r2[0], signature=r2[1],
-                              replay={"ops": [small], "impl": sout, "original_op": op})
-            if ctx._match_known(sig) is None:
+            sk = json.dumps(sig, sort_keys=True)
+            if ctx._match_known(sig) is not None:
+                # still reproduces: reported once as KNOWN-FINDING (the stored replay ops run first)
+                ctx.violation("property", msg, signature=sig, replay={"ops": [op], "impl": [out]})
+                ctx.count("known-finding-case")
+            else:
+                if sk not in seen_sigs and len(seen_sigs) < 12:
+                    seen_sigs.add(sk)
+                    small = shrink(ctx, binary, op, sig) if not ctx.replay else op
+                    sout = ctx.go_run(binary, "TestVerifC29", [small])
+                    r2 = oracle(small, sout[0] if sout else "<missing>")
+                    if r2 is None or r2[1] != sig:
+                        small, sout, r2 = op, [out], res
+                    ctx.violation("property", r2[0], signature=r2[1],
+                                  replay={"ops": [small], "impl": sout, "original_op": op})
                 continue
-            ctx.count("known-finding-case")
         # correspondence: implementation vs model, specification (Lean) vs oracle (Python)
         m = model[i] if i < len(model) else "<missing>"
         if not m.startswith("M "):
             mm, ss = "<missing>", "<missing>"
         else:
             mm, ss = m[2:].split(" S ")
+            ss, qq = ss.split(" Q ")
+            # the specification with the three documented relaxations must describe the model exactly
+            if parse_out(qq)[0] != [e if e not in ("eofraw", "internal") else e for e in parse_out(mm)[0]]:
+                ctx.violation("correspondence", "Lean model and relaxed specification differ: `%s` vs `%s`" % (mm, qq),
+                              signature={"kind": "model-vs-quirk-spec"}, replay={"ops": [op], "model": [m]},
+                              no_input=True)
         mev, mw, _ = parse_out(mm)
         iev, iw, _ = parse_out(out)
         sev, _, _ = parse_out(ss)
